@@ -265,7 +265,7 @@ let run_case (case : string) : string =
            if !batch_count > 0 then begin
              if contents_unchanged then
                (* may or may not publish: the property does not say; stop checking exact counts *)
-               Hashtbl.iter (fun _ i -> if i.live then i.got_reset <- true) infos
+               Hashtbl.iter (fun _ i -> if i.live then (i.got_reset <- true; i.sent_since_pending <- i.sent_since_pending + 1)) infos
              else begin
                Hashtbl.iter (fun _ i -> if i.live then i.count_fuzzy <- true) infos;
                published !shadow !batch_count
